@@ -217,16 +217,40 @@ def c09_oracle(order, cases, impl):
     nontrivial = set()
     last_write = {}   # (seq, type, key) -> case id of the last write
     dup_cmds = {}     # (seq, type, key) -> set of command names that carried a repeated argument
+    policy = {}       # seq -> expiry policy
+    ttl_used = set()  # sequences that contain an expiry command
+    dumped = {}       # seq -> {table: number of non-empty (type, key) parts of the last dump}
     for cid in order:
         c = cases[cid]
         seq = cid.split(".")[0]
         kind = c[0]
         if kind == "S":
+            policy[seq] = c[1]
+            continue
+        if kind == "T":
+            # table key counter = number of keys that exist in the table (direct, model-free): comparable with the
+            # dump when no key can be expired-but-stored, i.e. under local_deletion or without expiry commands
+            out = impl.get(cid)
+            if out is not None and seq in dumped and (policy.get(seq) == "local" or seq not in ttl_used):
+                checked += 1
+                for part in out.split(" "):
+                    if "=" not in part:
+                        continue
+                    th, val = part.split("=", 1)
+                    want = ":%d" % dumped[seq].get(unh(th), 0)
+                    if val != want:
+                        fails.append(dict(name="c09-" + cid, cid=cid, key=repr(unh(th)),
+                                          what="table key counter %s but %s keys exist in table %r" % (val, want, unh(th)),
+                                          last_write=None, signature="table key counter differs from the number of existing keys",
+                                          obs=out[:300]))
+                        break
             continue
         if kind == "W":
             a = args_of(c[4])
             nm = a[0].decode("latin1").lower() if a else "?"
             hist[nm] = hist.get(nm, 0) + 1
+            if nm.endswith("expire") or nm.endswith("persist") or nm == "setex":
+                ttl_used.add(seq)
             keys = a[1:] if nm == "del" else a[1:2]
             for k in keys:
                 tk = (seq, type_of_cmd(nm), k)
@@ -250,11 +274,17 @@ def c09_oracle(order, cases, impl):
         if kind == "O":
             obs.append((unh(c[2]), out))
         else:
+            per_table = {}
             for part in out.split(" || "):
                 if not part:
                     continue
                 i = part.find(":")
                 obs.append((unh(part[:i]), part[i + 1:]))
+                k = unh(part[:i])
+                if b":" in k:
+                    t = k[:k.index(b":")]
+                    per_table[t] = per_table.get(t, 0) + 1
+            dumped[seq] = per_table
         for key, o in obs:
             if not key_valid(key):
                 continue
@@ -370,19 +400,19 @@ def plan(ctx):
     seed = ctx.seed
     runs = []
     if quick:
-        runs.append(("rand-mem", "-seed %d -n 1300 -len 40 -types khszl -policy mix" % seed, "mem"))
-        runs.append(("rand-pebble", "-seed %d -n 250 -len 40 -types khszl -policy mix" % (seed + 7919), "pebble"))
-        runs.append(("exh2", "-exh 2 -types khszl -policy local", "mem"))
-        runs.append(("exh3-ttl", "-exh 3 -types HSZLK -policy compact", "mem"))
+        runs.append(("rand-mem", "-seed %d -n 1300 -len 40 -types khszl -policy mix -counters" % seed, "mem"))
+        runs.append(("rand-pebble", "-seed %d -n 250 -len 40 -types khszl -policy mix -counters" % (seed + 7919), "pebble"))
+        runs.append(("exh2", "-exh 2 -types khszl -policy local -xcounters", "mem"))
+        runs.append(("exh3-ttl", "-exh 3 -types HSZLK -policy compact -xcounters", "mem"))
     else:
-        runs.append(("rand-mem", "-seed %d -n 12000 -len 60 -types khszl -policy mix" % seed, "mem"))
-        runs.append(("rand-mem-long", "-seed %d -n 1500 -len 300 -types khszl -policy mix" % (seed + 31), "mem"))
-        runs.append(("rand-pebble", "-seed %d -n 5000 -len 60 -types khszl -policy mix" % (seed + 7919), "pebble"))
-        runs.append(("rand-rocksdb", "-seed %d -n 1500 -len 60 -types khszl -policy mix" % (seed + 104729), "rocksdb"))
-        runs.append(("exh3-local", "-exh 3 -types hszl -policy local", "mem"))
-        runs.append(("exh3-compact", "-exh 3 -types hsz -policy compact", "mem"))
-        runs.append(("exh4-ttl-compact", "-exh 4 -types HSZLK -policy compact", "mem"))
-        runs.append(("exh3-ttl-local", "-exh 3 -types HSZLK -policy local", "mem"))
+        runs.append(("rand-mem", "-seed %d -n 12000 -len 60 -types khszl -policy mix -counters" % seed, "mem"))
+        runs.append(("rand-mem-long", "-seed %d -n 1500 -len 300 -types khszl -policy mix -counters" % (seed + 31), "mem"))
+        runs.append(("rand-pebble", "-seed %d -n 5000 -len 60 -types khszl -policy mix -counters" % (seed + 7919), "pebble"))
+        runs.append(("rand-rocksdb", "-seed %d -n 1500 -len 60 -types khszl -policy mix -counters" % (seed + 104729), "rocksdb"))
+        runs.append(("exh3-local", "-exh 3 -types hszl -policy local -xcounters", "mem"))
+        runs.append(("exh3-compact", "-exh 3 -types hsz -policy compact -xcounters", "mem"))
+        runs.append(("exh4-ttl-compact", "-exh 4 -types HSZLK -policy compact -xcounters", "mem"))
+        runs.append(("exh3-ttl-local", "-exh 3 -types HSZLK -policy local -xcounters", "mem"))
     return runs
 
 
